@@ -1195,4 +1195,99 @@ except ImportError:
     _ceil = math.ceil
 ''')]),
  N("q-struct-pack-side", [(SP, '''        outbound_side_and_message = self.side + self.outbound_message''', '''        outbound_side_and_message = b"%s%s" % (self.side, self.outbound_message)''')]),
+    # ---- defects seeded into the fourth batch (idiomatic Python 3.10+ modernisations P01..P08)
+    B("p01-top-byte-mask-zero-on-byte-multiple", ["C11", "C04"], [(UT, "    top_byte_bits = size_bits(maxval) % 8 or 8\n", "    top_byte_bits = size_bits(maxval) % 8\n")],
+      base="seeded_neutral/P01", note="`% 8 or 8` spelled without the `or 8`: mask 0 when the bit length is a multiple of 8"),
+    B("p01-little-endian-encoder", ["C15"], [(UT, '    return num.to_bytes(num_bytes, "big")\n', '    return num.to_bytes(num_bytes, "little")\n')],
+      base="seeded_neutral/P01", tests="fail", note="int.to_bytes with the wrong byte order: encoder and decoder disagree"),
+    B("p01-accepts-offset-equal-span", ["C11", "C04"], [(UT, "        if offset < span:\n", "        if offset <= span:\n")],
+      base="seeded_neutral/P01", note="renamed-locals sampler accepts the excluded upper end"),
+    B("p03-inline-digits-not-reversed", ["C13"], [(ED, "    for bit in reversed(bits):\n", "    for bit in bits:\n")],
+      base="seeded_neutral/P03", tests="fail", note="inline digit peel consumed least significant digit first"),
+    B("p03-inline-peel-shifts-two", ["C13"], [(ED, "        bits.append(n & 1)\n        n >>= 1\n", "        bits.append(n & 1)\n        n >>= 2\n")],
+      base="seeded_neutral/P03", tests="fail", note="inline digit peel drops every other bit"),
+    B("p03-safe-ladder-gets-dedicated-add", ["C12"], [(ED, "    return _double_and_add(pt, n, add_elements)\n", "    return _double_and_add(pt, n, _add_elements_nonunified)\n")],
+      base="seeded_neutral/P03", note="shared ladder instantiated with the non-unified addition for arbitrary points"),
+    B("p03-two-d-constant-is-d", ["C12"], [(ED, "_TWO_D = (2*d) % Q\n", "_TWO_D = d % Q\n")],
+      base="seeded_neutral/P03", tests="fail", note="hoisted curve constant is d, not 2d"),
+    B("p03-sign-bit-one-too-low", ["C15"], [(ED, "        y |= _SIGN_BIT\n", "        y |= _SIGN_BIT >> 1\n")],
+      base="seeded_neutral/P03", tests="fail", note="sign of x stored in bit 254"),
+    B("p04-eq-is-identity", ["C13"], [(ED, "        return self.to_bytes() == other.to_bytes()\n", "        return self is other\n")],
+      base="seeded_neutral/P04", tests="fail", note="with __ne__ derived from __eq__, both become object identity"),
+    B("p04-low-order-retry-dropped", ["C14"], [(ED, "        if P8._is_identity:\n            continue\n", "")],
+      base="seeded_neutral/P04", note="property-form identity test on 8*P removed"),
+    B("p04-cofactor-constant-four", ["C14"], [(ED, "_COFACTOR = 8\n", "_COFACTOR = 4\n")],
+      base="seeded_neutral/P04", note="named cofactor constant too small"),
+    B("p05-symmetric-transcript-unsorted", ["C02"], [(SP, "    first_msg, second_msg = min(msg1, msg2), max(msg1, msg2)\n", "    first_msg, second_msg = msg1, msg2\n")],
+      base="seeded_neutral/P05", tests="fail", note="min/max form of the message ordering removed"),
+    B("p05-symmetric-hash-commits-to-nothing", ["C09"], [(SP, "        return (self.params.S,)\n", "        return ()\n")],
+      base="seeded_neutral/P05", note="hook listing the hashed blinding elements returns none for the symmetric class"),
+    B("p05-serialize-idB-from-idA", ["C10"], [(SP, '        return {"idA": _to_hex(self.idA), "idB": _to_hex(self.idB)}\n', '        return {"idA": _to_hex(self.idA), "idB": _to_hex(self.idA)}\n')],
+      base="seeded_neutral/P05", note="identity hook of the shared serializer stores idA twice"),
+    B("p05-keyword-transcript-swaps-messages", ["C17"], [(SP, "                               X_msg=self.X_msg(), Y_msg=self.Y_msg(),\n", "                               X_msg=self.Y_msg(), Y_msg=self.X_msg(),\n")],
+      base="seeded_neutral/P05", tests="fail", note="keyword call binds the two messages to the wrong slots"),
+    B("p05-unblinding-sign-lost", ["C01"], [(SP, "        pw_unblinding = self.my_unblinding().scalarmult(-self.pw_scalar)\n", "        pw_unblinding = self.my_unblinding().scalarmult(self.pw_scalar)\n")],
+      base="seeded_neutral/P05", tests="fail", note="extracted shared-element helper adds the blinding instead of removing it"),
+    B("p05-restore-does-not-mark-started", ["C07"], [(SP, "        self._started = True\n        self._set_secret_scalar(g.bytes_to_scalar", "        self._set_secret_scalar(g.bytes_to_scalar")],
+      base="seeded_neutral/P05", note="restore helper forgets the started flag: start() is accepted on a restored instance"),
+    B("p08-restore-scalar-off-by-one", ["C10"], [(SP, "        self.xy_scalar = g.bytes_to_scalar(xy_scalar_bytes)\n", "        self.xy_scalar = g.bytes_to_scalar(xy_scalar_bytes) + 1\n")],
+      base="seeded_neutral/P08", tests="fail", note="shared restore tail resumes with a different scalar"),
+    # Python 3 derives != from __eq__: removing the redundant __ne__ changes nothing
+    N("r-int-ne-removed", [(GR, "    def __ne__(self, other):\n        return not self == other\n", "")], props=["C13", "C01", "C03"]),
+    N("r-ed-ne-removed", [(ED, "    def __ne__(self, other):\n        return not self == other\n", "")], props=["C13", "C01", "C03", "C05"]),
+    B("r-ed-ne-removed-eq-compares-x-only", ["C13"], [(ED, "    def __ne__(self, other):\n        return not self == other\n", ""),
+      (ED, "        return self.to_bytes() == other.to_bytes()\n", "        return self.XYTZ[0] == other.XYTZ[0]\n")], tests="fail"),
+    B("p02-membership-or", ["C05"], [(GR, "        return e._group is self and pow(e._e, self.q, self.p) == 1\n", "        return e._group is self or pow(e._e, self.q, self.p) == 1\n")],
+      base="seeded_neutral/P02", note="one-expression membership test with `or`: every residue is accepted"),
+    B("p02-cofactor-property-unchecked", ["C14"], [(GR, "        r = (self.p - 1) // self.q\n        assert r * self.q == self.p - 1\n", "        r = (self.p - 1) // self.q\n")],
+      base="seeded_neutral/P02", note="cofactor property no longer checks that q divides p-1"),
+    B("p02-shared-hkdf-helper-ignores-info", ["C18"], [(GR, "        info=info,\n", "        info=b\"SPAKE2 pw\",\n")],
+      base="seeded_neutral/P02", tests="fail", note="shared HKDF helper uses the password label for blinding elements too"),
+    B("p07-setattr-loop-derives-N-from-M-seed", ["C18"], [("params.py", 'seeds = (("M", M), ("N", N), ("S", S))', 'seeds = (("M", M), ("N", M), ("S", S))')],
+      base="seeded_neutral/P07", tests="fail", note="setattr loop over (name, seed) pairs binds N to M's seed"),
+    B("p06-blinding-generator-omits-N", ["C09"], [(SP, "        yield self.params.M\n        yield self.params.N\n", "        yield self.params.M\n")],
+      base="seeded_neutral/P06", note="generator hook feeding the incremental fingerprint hash yields M only"),
+    B("p06-fingerprint-guard-inverted", ["C09"], [(SP, '        if state["hashed_params"] != self.hash_params():\n', '        if state["hashed_params"] == self.hash_params():\n')],
+      base="seeded_neutral/P06", tests="fail", note="shared resume helper rejects the matching fingerprint and accepts every other"),
+    B("p06-password-field-holds-scalar", ["C10"], [(SP, '            "password": _hex_text(self.pw),\n', '            "password": group.scalar_to_bytes(self.xy_scalar).hex(),\n')],
+      base="seeded_neutral/P06", tests="fail", note="dict literal with a spliced identity hook stores the scalar under the password key"),
+    # ---- found by the mutation sweep (tools/mutation_sweep.py): survives the tests
+    B("m-int-ne-recurses", ["C13"], [(GR, "        return not self == other\n", "        return not self != other\n")],
+      note="__ne__ defined through != : RecursionError on every use (the tests never compare integer-group elements with !=)"),
+    # is_extended_zero compares X unreduced: the formulas must hand it a value that is 0 exactly when it is 0 mod Q
+    B("m-double-x-unreduced", ["C14"], [(ED, "    E = (J*J-A-B) % Q\n", "    E = (J*J-A-B)\n"), (ED, "    H = (D-B) % Q\n    X3 = (E*F) % Q\n", "    H = (D-B) % Q\n    X3 = (E*F)\n")],
+      note="2*P = identity with X3 a non-zero multiple of Q is not recognised: a small-order candidate is not skipped by arbitrary_element "
+           "(survives the tests: such seeds are never met); C05 is unaffected - L is odd, so L*P comes out of the addition formula", silent=["C05"]),
+    B("m-add-x-unreduced", ["C13", "C05", "C14"], [(ED, "    A = ((Y1-X1)*(Y2-X2)) % Q\n", "    A = ((Y1-X1)*(Y2-X2))\n"), (ED, "    B = ((Y1+X1)*(Y2+X2)) % Q\n", "    B = ((Y1+X1)*(Y2+X2))\n"),
+      (ED, "    E = (B-A) % Q\n", "    E = (B-A)\n"), (ED, "    H = (B+A) % Q\n    X3 = (E*F) % Q\n", "    H = (B+A) % Q\n    X3 = (E*F)\n")], tests="killed",
+      note="e + (-e) is not recognised as the identity (import already fails on the L-torsion assert)"),
+    N("m-add-x-product-of-residues", [(ED, "    H = (B+A) % Q\n    X3 = (E*F) % Q\n", "    H = (B+A) % Q\n    X3 = (E*F)\n")],
+      note="E and F are residues: E*F is 0 exactly when it is 0 mod Q - equivalent (mutation-sweep survivor)"),
+    N("m-add-x-differences-of-residues", [(ED, "    E = (B-A) % Q\n", "    E = (B-A)\n"), (ED, "    F = (D-C) % Q\n", "    F = (D-C)\n"),
+      (ED, "    H = (B+A) % Q\n    X3 = (E*F) % Q\n", "    H = (B+A) % Q\n    X3 = (E*F)\n")],
+      note="differences of residues vanish only when they vanish mod Q - equivalent"),
+    # mutants the tests kill but no check reported before the sweep (gross failures of one API function)
+    B("m-int-add-ctor-args-swapped", ["C13"], [(GR, "        return _Element(self, (e1._e * e2._e) % self.p)", "        return _Element((e1._e * e2._e) % self.p, self)")], tests="killed",
+      note="the sum is stored in the group slot and the group in the value slot"),
+    B("m-int-zero-ctor-args-swapped", ["C13"], [(GR, "        self.Zero = _Element(self, 1)", "        self.Zero = _Element(1, self)")], tests="killed"),
+    B("m-ladder-assert-positive", ["C13"], [(ED, """    assert n >= 0
+    if n==0:
+        return xform_affine_to_extended((0,1))
+    _ = double_element(scalarmult_element_safe_slow(pt, n>>1))""", """    assert n > 0
+    if n==0:
+        return xform_affine_to_extended((0,1))
+    _ = double_element(scalarmult_element_safe_slow(pt, n>>1))""")], tests="killed",
+      note="the recursion always ends in n = 0, which the assertion now refuses: every multiplication raises"),
+    B("m-affine-y-unreduced", ["C15"], [(ED, "    return ((x*inv(z))%Q, (y*inv(z))%Q)", "    return ((x*inv(z))%Q, (y*inv(z)))")], tests="killed"),
+    B("m-affine-x-unreduced", ["C15"], [(ED, "    return ((x*inv(z))%Q, (y*inv(z))%Q)", "    return ((x*inv(z)), (y*inv(z))%Q)")], tests="killed",
+      note="the sign bit is the parity of an unreduced product"),
+    B("m-encodepoint-range-254", ["C15"], [(ED, "    assert 0 <= y < (1<<255) # always", "    assert 0 <= y < (1<<254) # always")], tests="killed",
+      note="half of the points cannot be encoded"),
+    B("m-int-scalar-decoder-refuses-own-width", ["C15"], [(GR, "        assert len(b) == self.scalar_size_bytes", "        assert len(b) != self.scalar_size_bytes")], tests="killed"),
+    B("m-ed-scalar-decoder-refuses-own-width", ["C15"], [(ED, "    assert len(s) == 32, len(s)", "    assert len(s) == 33, len(s)")], tests="killed"),
+    B("m-int-scalar-decoder-isinstance-swapped", ["C15"], [(GR, """        # for restore of intermediate state
+        assert isinstance(b, bytes)""", """        # for restore of intermediate state
+        assert isinstance(bytes, b)""")], tests="killed", note="isinstance with its operands exchanged: TypeError on every input"),
+    B("m-default-identity-not-empty", ["C03"], [(SP, '    def __init__(self, password, idSymmetric=b"",', '    def __init__(self, password, idSymmetric=b"x",')], tests="killed",
+      note="an omitted identity no longer means the empty string"),
 ]
